@@ -280,7 +280,9 @@ def primary (cfg : Cfg) (w : World) (p : Pkg) : Except BuildErr PkgInfo :=
         | .error e => .error e
         | .ok () =>
           .ok { funcs := sortBy (·.targetName) own,
-                imports := (sortBy (·.uniqueName) imports).map fun i => { i with funcs := sortBy (·.targetName) i.funcs },
+                -- Invoke sorts `Funcs` and `Imports` only: an imported package's targets stay in the parser's order
+                -- (namespace methods by type and name, then functions by name)
+                imports := sortBy (·.uniqueName) imports,
                 defaultFunc := dflt, aliases := sortBy (·.1) aliases, description := toOneLine (packageDoc cfg p) }
 
 end MageModel.Parse
